@@ -12,6 +12,10 @@
 //!   every string prefix ++ w, w over the alphabet with |prefix ++ w| = len (in chars), under every
 //!   listed extension set, empty converter.  Output
 //!              `S n=<cases> both=<n> nonempty=<n> fm=<n> panics=<n> bad=<n> first=<hex input>:<ext>,...`
+//! L-meta:      `L <hex input> <ext bits>`
+//!   output     `F <map> ;; M <map>`, <map> = `fm` (the input has a front matter: not compared),
+//!              `panic`, `none` (no output), `-` (empty), `hexkey=hexvalue,...` in insertion order
+//!              (`nonstr` if a key or value is not a YAML string: cannot happen without front matter)
 use cooklang::{Converter, CooklangParser, Extensions};
 use serde_json::Value;
 use vh::*;
@@ -47,6 +51,20 @@ fn observe(parser: &CooklangParser, input: &str) -> Result<Obs, &'static str> {
         }
     }
     Ok(o)
+}
+
+fn map_line(m: &serde_yaml::Mapping) -> String {
+    if m.is_empty() {
+        return "-".into();
+    }
+    let mut parts = Vec::new();
+    for (k, v) in m.iter() {
+        match (k.as_str(), v.as_str()) {
+            (Some(k), Some(v)) => parts.push(format!("{}={}", hex(k), hex(v))),
+            _ => return "nonstr".into(),
+        }
+    }
+    parts.join(",")
 }
 
 fn has_fm(input: &str, ext: Extensions) -> bool {
@@ -124,6 +142,23 @@ fn main() {
                 n, both, nonempty, fm, panics, bad,
                 if first.is_empty() { "-".to_string() } else { first.join(",") }
             );
+        }
+        if f[0] == "L" {
+            let input = unhex(f[1]);
+            let ext = Extensions::from_bits_truncate(f[2].parse::<u32>().unwrap());
+            if has_fm(&input, ext) {
+                return "F fm ;; M fm".to_string();
+            }
+            let p = CooklangParser::new(ext, empty.clone());
+            let full = match guarded(|| p.parse(&input)) {
+                Err(_) => "panic".to_string(),
+                Ok(r) => r.output().map(|x| map_line(&x.metadata.map)).unwrap_or_else(|| "none".into()),
+            };
+            let meta = match guarded(|| p.parse_metadata(&input)) {
+                Err(_) => "panic".to_string(),
+                Ok(r) => r.output().map(|x| map_line(&x.map)).unwrap_or_else(|| "none".into()),
+            };
+            return format!("F {} ;; M {}", full, meta);
         }
         let input = unhex(f[0]);
         let bits = f[1].parse::<u32>().unwrap();
